@@ -55,15 +55,21 @@ def outcome_of_exc(ex):
 
 # ---- data handlers -----------------------------------------------------------------------------------
 class WrapIn(InputInterceptionDataHandler):
-    def __init__(self, prep_raises=False, restore_raises=False):
-        self.prep_raises, self.restore_raises = prep_raises, restore_raises
+    def __init__(self, prep_raises=False, restore_raises=False, discards=None, plain=False):
+        self.prep_raises, self.restore_raises, self.discards, self.plain = prep_raises, restore_raises, discards, plain
 
     def prepare_input_for_recording(self, interception_key, result, args, kwargs):
+        if self.discards is not None:
+            self.discards.discard_recording()      # the handler itself decides to drop the recording
+        if self.plain:
+            return result
         if self.prep_raises:
             raise pv.HandlerError("prepare")
         return {"wrapped": result, "nargs": len(args)}
 
     def restore_input_from_recording(self, recorded_data, args, kwargs):
+        if self.plain:
+            return recorded_data
         if self.restore_raises:
             raise pv.HandlerError("restore")
         return recorded_data["wrapped"]
@@ -240,8 +246,10 @@ def build_input(ctx, site):
             if not isinstance(v, str):
                 raise TypeError("resolver wants a str")
             return {"p": v}
-    h = {"none": None, "wrap": WrapIn(), "prep_raises": WrapIn(prep_raises=True),
-         "restore_raises": WrapIn(restore_raises=True)}[cfg["handler"]]
+    disc = rec if cfg.get("prep_discards") else None
+    h = {"none": WrapIn(discards=disc, plain=True) if disc else None, "wrap": WrapIn(discards=disc),
+         "prep_raises": WrapIn(prep_raises=True, discards=disc),
+         "restore_raises": WrapIn(restore_raises=True, discards=disc)}[cfg["handler"]]
     cap = None if cfg["cap"] is None else [CapturedArg(p, n) for p, n in cfg["cap"]]
     vk = cfg["vmiss"]["kind"]
     if vk == "none":
@@ -348,6 +356,9 @@ def interp(ctx, c, env):
         elif k == "force":
             ctx.rec.force_sample_recording()
             c = c["next"]
+        elif k == "enable":
+            (ctx.rec.enable_recording if c["b"] else ctx.rec.disable_recording)()
+            c = c["next"]
         elif k == "recdata":
             ctx.rec.record_data(c["key"], evaluate(c["e"], env))
             c = c["next"]
@@ -359,31 +370,44 @@ def interp(ctx, c, env):
             raise ValueError(k)
 
 
+class OpHolder(object):
+    """One decorated operation per (class name, class-level?, has extractor?) and recorder: the SAME decorated
+    function serves every run of that operation in a history (state kept in decorator closures would show)."""
+    def __init__(self):
+        self.ctx = None
+        self.op = None
+
+
 def build_operation(ctx, op, prm=None):
     rec = ctx.rec
-    ex = op["extractor"]
-    if ex["kind"] == "none":
-        extractor = None
-    elif ex["kind"] == "dict":
+    cache = rec.__dict__.setdefault("_verif_ops", {})
+    has_ex = op["extractor"]["kind"] != "none"
+    key = (op["cls"], op["classlevel"], has_ex)
+    if key not in cache:
+        holder = OpHolder()
+
         def extractor(*a, **k):
-            return {kk: to_py(v) for kk, v in ex["d"]}
-    elif ex["kind"] == "raises":
-        def extractor(*a, **k):
-            raise pv.HandlerError("extractor")
-    else:
-        def extractor(*a, **k):
+            ex = holder.op["extractor"]
+            if ex["kind"] == "dict":
+                return {kk: to_py(v) for kk, v in ex["d"]}
+            if ex["kind"] == "raises":
+                raise pv.HandlerError("extractor")
             return 7 if ex.get("junk") == "int" else [('k', 1), 7]
 
-    def run_body(*_a):
-        return interp(ctx, op["body"], [])
-    if op["classlevel"]:
-        cls = type(str(op["cls"]), (object,), {
-            "execute": classmethod(rec.class_operation(metadata_extractor=extractor)(lambda c: run_body()))})
-        call = cls.execute
-    else:
-        cls = type(str(op["cls"]), (object,), {
-            "execute": rec.operation(metadata_extractor=extractor)(lambda self: run_body())})
-        call = lambda: cls().execute()   # noqa: E731
+        def run_body(*_a):
+            return interp(holder.ctx, holder.op["body"], [])
+        ext = extractor if has_ex else None
+        if op["classlevel"]:
+            cls = type(str(op["cls"]), (object,), {
+                "execute": classmethod(rec.class_operation(metadata_extractor=ext)(lambda c: run_body()))})
+            call = cls.execute
+        else:
+            cls = type(str(op["cls"]), (object,), {
+                "execute": rec.operation(metadata_extractor=ext)(lambda self: run_body())})
+            call = lambda: cls().execute()   # noqa: E731
+        cache[key] = (holder, cls, call)
+    holder, cls, call = cache[key]
+    holder.ctx, holder.op = ctx, op
     if prm is not None:
         rec.recording_params(RecordingParameters(
             sampling_rate=float(Fraction(*prm["rate"])), ignore_enforced_sampling=prm["ignore"],
@@ -392,7 +416,8 @@ def build_operation(ctx, op, prm=None):
 
 
 def state_of(rec):
-    return {"live": rec._active_recording is not None, "force": bool(rec._force_sample),
+    return {"active": rec._active_recording is not None, "enabled": bool(rec.recording_enabled),
+            "force": bool(rec._force_sample),
             "counter": sorted([k, v] for k, v in rec._invoke_counter.items() if v),
             "icpt": bool(rec._currently_in_interception),
             "public": [bool(rec.in_recording_mode), bool(rec.in_playback_mode), rec.current_recording_id is None,
